@@ -1,5 +1,5 @@
-(* C15 — HTTP: Invalidate removes every cached response on a matching path. Part 1 (this file, TrieProofs.v): the path index is a map normalized-path -> key -> identity for every operation sequence, exact and wildcard matching are segment-wise, equivalent spellings coincide, pruning leaves no empty branch. Part 2 (index vs cache under interleavings) is in the HttpIndexLts section below when present. Only `exact` + Print Assumptions. *)
-Require Import KV.Base KV.HttpModel KV.HttpTrie KV.TrieProofs.
+(* C15 — HTTP: Invalidate removes every cached response on a matching path. Part 1 (this file, TrieProofs.v): the path index is a map normalized-path -> key -> identity for every operation sequence, exact and wildcard matching are segment-wise, equivalent spellings coincide, pruning leaves no empty branch. Part 2 (index vs cache under interleavings) is in the HttpIndexLts section below when present. Only `exact` + Print Assumptions. Part 2 (IndexLtsProofs.v): the index against the backing cache as an interleaving LTS (store = index step then cache step, removal notifications delivered asynchronously by identity, Invalidate = snapshot then deletes, Clear = two steps). *)
+Require Import KV.Base KV.HttpModel KV.HttpTrie KV.TrieProofs KV.IndexLts KV.IndexLtsProofs.
 Open Scope Z_scope.
 
 (* addKey = map update at the normalized path *)
@@ -100,6 +100,170 @@ Theorem c15_node_count :
          1 + Z.of_nat (length (a_prefixes (run_state a_trie_step [] ops))).
 Proof. exact trie_trace_count. Qed.
 
+(* per key, in every reachable state in which no two stores of one key overlap and no store overlaps a Clear: a cached identity is indexed (or a store of the key is in flight); an indexed identity is cached, or its removal is still queued, or its store is in flight, or a Clear is between its two steps *)
+Theorem c15_index_cache_invariant :
+  forall (scripts : list (list op)) (s : state),
+         wf_scripts scripts ->
+         reachableH (init scripts) s ->
+         closed s = false ->
+         forall k : Z,
+         (forall id : Z, get k (cache s) = Some id -> get k (idx s) = Some id \/ inflight_key k s) /\
+         (forall id : Z,
+          get k (idx s) = Some id ->
+          get k (cache s) = Some id \/ In (k, id) (notes s) \/ inflight k id s \/ clearing s).
+Proof. exact IndexLtsProofs.invariant. Qed.
+
+(* the property's second sentence: at every quiescent state (nothing in flight, no pending notification) the index and the cache hold the same keys with the same identities, whatever interleaving of misses on distinct keys, evictions, rejections, expirations, deletions and late notifications preceded it *)
+Theorem c15_quiescent_agreement :
+  forall (scripts : list (list op)) (s : state),
+         wf_scripts scripts ->
+         reachableH (init scripts) s ->
+         closed s = false -> quiescent s -> forall k : Z, get k (idx s) = get k (cache s).
+Proof. exact IndexLtsProofs.quiescent_agreement. Qed.
+
+(* Invalidate run with no request in flight: afterwards no matching key is cached, untouched keys keep their identity, and index = cache once notifications are drained *)
+Theorem c15_invalidate_complete :
+  forall (scripts : list (list op)) (s0 : state) (i : nat) (ks : list Z) 
+           (rest : list op) (ls : list label) (s1 : state),
+         wf_scripts scripts ->
+         reachableH (init scripts) s0 ->
+         closed s0 = false ->
+         quiescent s0 ->
+         nth_error (threads s0) i = Some {| t_pc := PIdle; t_script := OInvalidate ks :: rest |} ->
+         (forall l : label,
+          In l ls -> l = LDeliver \/ (exists k : Z, l = LEvict k) \/ (exists o : outcome, l = LT i o)) ->
+         exec s0 ls = Some s1 ->
+         nth_error (threads s1) i = Some {| t_pc := PIdle; t_script := rest |} ->
+         let sd := deliver_all s1 in
+         (forall k : Z, memZ k ks = true -> get k (cache s1) = None) /\
+         (forall k id : Z,
+          memZ k ks = false ->
+          get k (cache s0) = Some id -> ~ In (LEvict k) ls -> get k (cache s1) = Some id) /\
+         (forall k id : Z, get k (cache s1) = Some id -> get k (cache s0) = Some id) /\
+         cache sd = cache s1 /\
+         quiescent sd /\
+         reachableH (init scripts) sd /\
+         (forall k : Z, get k (idx sd) = get k (cache sd)) /\
+         (notes s1 = [] -> forall k : Z, get k (idx s1) = get k (cache s1)).
+Proof. exact IndexLtsProofs.invalidate_complete. Qed.
+
+(* the drained state does not depend on when the notifier delivered (removal by identity commutes with everything but an Invalidate snapshot) *)
+Theorem c15_delivery_time_irrelevant :
+  forall (ls : list label) (s s1 : state),
+         exec s ls = Some s1 ->
+         quiet_run s (strip ls) ->
+         exists s2 : state, exec s (strip ls) = Some s2 /\ deliver_all s2 = deliver_all s1.
+Proof. exact IndexLtsProofs.drained_state_independent_of_delivery_times. Qed.
+
+(* one delivery commutes with any step insensitive to it, including enabledness *)
+Theorem c15_deliver_commutes :
+  forall (s : state) (l : label) (k id : Z),
+         headed s k id -> indep s l k id = true -> exec s [LDeliver; l] = exec s [l; LDeliver].
+Proof. exact IndexLtsProofs.deliver_commutes. Qed.
+
+(* a store rejected by admission leaves neither a cache nor an index entry *)
+Theorem c15_rejected_store_clean :
+  forall (s : state) (i : nat) (t : thread) (k id : Z) (r : list op) 
+           (o : outcome) (s1 : state),
+         nth_error (threads s) i = Some t ->
+         t_pc t = PIdle ->
+         t_script t = OStore k id :: r ->
+         closed s = false ->
+         exec s [LT i o; LT i Reject] = Some s1 ->
+         let sd := deliver_all s1 in
+         get k (cache sd) = None /\
+         get k (idx sd) = None /\
+         notes sd = [] /\
+         nth_error (threads sd) i = Some {| t_pc := PIdle; t_script := r |} /\
+         (forall k' : Z, k' <> k -> get k' (cache sd) = get k' (cache s)) /\
+         (forall k' v : Z,
+          k' <> k -> get k' (idx sd) = Some v <-> get k' (idx s) = Some v /\ ~ In (k', v) (notes s)).
+Proof. exact IndexLtsProofs.rejected_store_clean. Qed.
+
+(* a store on a closed cache removes its own index entry *)
+Theorem c15_closed_store_clean :
+  forall (s : state) (i : nat) (t : thread) (k id : Z) (r : list op) 
+           (o1 o2 o3 : outcome) (s3 : state),
+         nth_error (threads s) i = Some t ->
+         t_pc t = PIdle ->
+         t_script t = OStore k id :: r ->
+         closed s = true ->
+         exec s [LT i o1; LT i o2; LT i o3] = Some s3 ->
+         idx s3 = rem k (idx s) /\
+         get k (idx s3) = None /\
+         (forall k' : Z, k' <> k -> get k' (idx s3) = get k' (idx s)) /\
+         cache s3 = cache s /\
+         notes s3 = notes s /\
+         closed s3 = true /\ nth_error (threads s3) i = Some {| t_pc := PIdle; t_script := r |}.
+Proof. exact IndexLtsProofs.closed_store_clean. Qed.
+
+(* finding F5: overlapping stores of ONE key end quiescent with the key cached and not indexed *)
+Theorem c15_overlap_same_key_refuted :
+  let s0 := init [[OStore 7 1]; [OStore 7 2]] in
+         wf_scripts [[OStore 7 1]; [OStore 7 2]] /\
+         exec s0 [LT 0 acc; LT 1 acc; LT 1 acc; LEvict 7; LDeliver; LT 0 acc] =
+         Some
+           {|
+             idx := [];
+             cache := [(7, 1)];
+             notes := [];
+             closed := false;
+             threads := [{| t_pc := PIdle; t_script := [] |}; {| t_pc := PIdle; t_script := [] |}]
+           |} /\ execH s0 [LT 0 acc; LT 1 acc] = None.
+Proof. exact IndexLtsProofs.overlap_same_key_refuted. Qed.
+
+(* ...and Invalidate then removes nothing *)
+Theorem c15_overlap_invalidate_blind :
+  let s :=
+           {|
+             idx := [];
+             cache := [(7, 1)];
+             notes := [];
+             closed := false;
+             threads := [{| t_pc := PIdle; t_script := [OInvalidate [7]] |}]
+           |} in
+         exec s [LT 0 acc; LT 0 acc] =
+         Some
+           {|
+             idx := [];
+             cache := [(7, 1)];
+             notes := [];
+             closed := false;
+             threads := [{| t_pc := PIdle; t_script := [] |}]
+           |}.
+Proof. exact IndexLtsProofs.overlap_same_key_invalidate_blind. Qed.
+
+(* same family: a store overlapping Clear's two steps *)
+Theorem c15_overlap_clear_refuted :
+  let s0 := init [[OStore 7 1]; [OClear]] in
+         exec s0 [LT 0 acc; LT 1 acc; LT 1 acc; LT 0 acc] =
+         Some
+           {|
+             idx := [];
+             cache := [(7, 1)];
+             notes := [];
+             closed := false;
+             threads := [{| t_pc := PIdle; t_script := [] |}; {| t_pc := PIdle; t_script := [] |}]
+           |} /\ execH s0 [LT 0 acc; LT 1 acc] = None.
+Proof. exact IndexLtsProofs.overlap_clear_refuted. Qed.
+
+(* non-vacuity: a 3-thread run with displacement, eviction and late deliveries meets every hypothesis of quiescent_agreement *)
+Theorem c15_lts_nonvacuous :
+  let s :=
+           {|
+             idx := [(2, 20)];
+             cache := [(2, 20)];
+             notes := [];
+             closed := false;
+             threads :=
+               [{| t_pc := PIdle; t_script := [] |}; {| t_pc := PIdle; t_script := [] |};
+                {| t_pc := PIdle; t_script := [] |}]
+           |} in
+         wf_scripts ex_scripts /\
+         reachableH (init ex_scripts) s /\
+         closed s = false /\ quiescent s /\ (forall k : Z, get k (idx s) = get k (cache s)).
+Proof. exact IndexLtsProofs.nonvacuity_hypotheses. Qed.
+
 Print Assumptions c15_add.
 Print Assumptions c15_remove_by_identity.
 Print Assumptions c15_stale_identity_noop.
@@ -114,3 +278,14 @@ Print Assumptions c15_trie_is_map_all_histories.
 Print Assumptions c15_no_empty_branch.
 Print Assumptions c15_match_all_histories.
 Print Assumptions c15_node_count.
+Print Assumptions c15_index_cache_invariant.
+Print Assumptions c15_quiescent_agreement.
+Print Assumptions c15_invalidate_complete.
+Print Assumptions c15_delivery_time_irrelevant.
+Print Assumptions c15_deliver_commutes.
+Print Assumptions c15_rejected_store_clean.
+Print Assumptions c15_closed_store_clean.
+Print Assumptions c15_overlap_same_key_refuted.
+Print Assumptions c15_overlap_invalidate_blind.
+Print Assumptions c15_overlap_clear_refuted.
+Print Assumptions c15_lts_nonvacuous.
